@@ -205,12 +205,18 @@ def evaluate(crys, chem, sl, jn, d, inp):
         if emin < -RTOL * scaleL: bad.append(("c12-not-psd", "loss tensor has eigenvalue %.3g < 0" % emin))
     tot = sum((L for _, L in modes), np.zeros((dim,) * 4))
     err = np.abs(tot - cov).max()
+    # diagnosis only: does the implementation populate the site dipoles as the property says?
+    Pimpl = np.array(d.siteDipoles([np.array(x) for x in dip]))
+    popbad = bool(np.abs(Pimpl - P).max() > RTOL * max(np.abs(P).max(), 1e-300))
     if err > tol:
         nrep = sum(1 for _ in modes)
-        key = "c12-slow-mode-dropped" if (nz and min(nz) < 1e-8 * abs(np.trace(Om) / N)) else "c12-sum-rule"
+        key = "c12-slow-mode-dropped" if (nz and min(nz) < 1e-8 * abs(np.trace(Om) / N)) else \
+              ("c12-site-dipole-population" if popbad else "c12-sum-rule")
         bad.append((key, "sum of loss tensors differs from the equilibrium covariance by %.3g (scale %.3g, tol %.3g; %d modes "
-                         "reported, %d non-zero eigenvalues, slowest/fastest = %.3g)" % (err, scaleL, tol, nrep, len(nz), 1 / cond)))
-    info = dict(modes=modes, rho=rho, P=P, edges=edges, Om=Om, comps=comps, scaleL=scaleL, maxrate=maxrate, cond=cond,
+                         "reported, %d non-zero eigenvalues, slowest/fastest = %.3g%s)" % (err, scaleL, tol, nrep, len(nz), 1 / cond,
+                         "; Interstitial.siteDipoles differs from the stabiliser-averaged, symmetry-carried dipoles by %.3g"
+                         % np.abs(Pimpl - P).max() if popbad else "")))
+    info = dict(popbad=popbad, modes=modes, rho=rho, P=P, edges=edges, Om=Om, comps=comps, scaleL=scaleL, maxrate=maxrate, cond=cond,
                 err=err / scaleL, nz=len(nz))
     return bad, info
 
@@ -277,7 +283,7 @@ def run(ck):
             if stream == "normal" and len(info["comps"]) == 1 and N >= 2 and len(coq_terms) < ck.n(60, 400):
                 coq_terms.append(coq_case(N, dim, info["edges"], info["rho"], info["P"], info["modes"], info["Om"], info["scaleL"], info["maxrate"]))
                 coq_meta.append(dict(label=label, crys=repr(crys), chem=chem, cut=cut, inp=inp, kind=kind,
-                                     rates=[l for l, _ in info["modes"]]))
+                                     rates=[l for l, _ in info["modes"]], popbad=info["popbad"]))
     # extreme stream: one class of jumps 20-26 kT above the others (a very slow relaxation mode)
     next_ext = 0
     for label in ["hcp-oct-tet", "fcc-oct-tet", "sq2w", "re3"][:ck.n(2, 4)]:
@@ -312,7 +318,8 @@ def run(ck):
         if c == 6: raise RuntimeError("harness built an ill-formed rate network: " + mdat["label"])
         if c != 0:
             ck.violation("Coq checker: %s" % meaning.get(c, c), {"crystal": mdat["crys"], "chem": mdat["chem"], "cutoff": mdat["cut"], **mdat["inp"],
-                                                               "rates_reported": mdat["rates"], "model_diagnosis": c}, key="c12-coq-%d" % c)
+                                                               "rates_reported": mdat["rates"], "model_diagnosis": c},
+                         key="c12-site-dipole-population" if (c == 5 and mdat["popbad"]) else "c12-coq-%d" % c)
     ck.extra["coq_checker_cases"] = len(codes)
     ck.extra["traces_validated_against_impl"] = len(codes)
     ck.extra["skipped"] = skipped
